@@ -94,6 +94,7 @@ def gen_consts():
 
 
 def coq_build(targets, timeout=3000):
+    run(["sh", os.path.join(VERIF, "tools", "mkcoqproject.sh")])
     if not os.path.exists(os.path.join(COQ, "Makefile")) or \
             os.path.getmtime(os.path.join(COQ, "Makefile")) < os.path.getmtime(os.path.join(COQ, "_CoqProject")):
         rc, out = run(["coq_makefile", "-f", "_CoqProject", "-o", "Makefile"], cwd=COQ)
